@@ -1,6 +1,6 @@
 """C17 — checkout never writes outside the work tree or into .git (dulwich/index.py validators).
 DESIGN.md section 7 C17 / A.11."""
-from pyvc.contract import contract, lemma
+from pyvc.contract import class_spec, contract, lemma
 
 I = "dulwich/index.py"
 
@@ -89,4 +89,25 @@ contract(
                          ("mkdir", "os.mkdir(full_path)", SAFE),
                          ("write-file", "st = build_file_from_blob(", SAFE)]},
     cover=False,
+)
+
+
+# ---- the submodule placeholder is never written THROUGH something that is not a real directory of the work tree ------------
+# ensure_submodule_placeholder(repo, path) creates <path>/.git; it may run only when lstat found nothing, found a real
+# directory (S_ISDIR of the LSTAT mode - a symlink to a directory is not one), or after whatever was there has been removed.
+class_spec(file="<abstract>", cls="LStatAbs17", fields={"st_mode": "nat"})
+contract(prop=["C17"], file="<abstract>", func="_remove_file_with_readonly_handling@ghost17", trusted=True, params={"path": "opaque"}, returns="None",
+         raises={"BaseException": None}, ensures=["upred('removed17', path)"], note="ghost marker: returns only after the entry at `path` has been unlinked")
+for _f, _ps in (("ensure_submodule_placeholder@abs17", ["repo", "path"]), ("index_entry_from_stat@abs17", ["stat_val", "hex_sha"]), ("os.lstat@abs17", ["path"])):
+    contract(prop=["C17"], file="<abstract>", func=_f, trusted=True, params={p_: "opaque" for p_ in _ps}, returns="opaque", raises={"BaseException": None})
+contract(
+    prop=["C17"], file=I, func="_transition_to_submodule#placeholder",
+    params={"repo": "opaque", "path": "bytes", "full_path": "bytes", "current_stat": "obj:LStatAbs17|None", "entry": "opaque", "index": "opaque"},
+    returns="None", raises={"BaseException": None},
+    options={"callee_contracts": {"_remove_file_with_readonly_handling": ("<abstract>", "_remove_file_with_readonly_handling@ghost17"),
+                                  "ensure_submodule_placeholder": ("<abstract>", "ensure_submodule_placeholder@abs17"),
+                                  "index_entry_from_stat": ("<abstract>", "index_entry_from_stat@abs17")},
+             "primitives": {"os.lstat": "os.lstat@abs17"},
+             "asserts": [("placeholder-only-into-absent-real-directory-or-after-removal", "ensure_submodule_placeholder(repo, path)",
+                          ["current_stat is None or (current_stat.st_mode // 4096) % 16 == 4 or upred('removed17', full_path)"])]},
 )
